@@ -37,3 +37,84 @@ theorem matrixSub_solve_spec (hz : LawfulIsZero K) (scale : K) (A : Mat K m n) (
   exact this
 
 end Scico.LinSolve
+
+/-! ## `LinearSubproblemSolver` end to end: assembly + conjugate gradient -/
+
+namespace Scico.LinSolve
+open RCLike
+
+section LinearE2E
+variable {𝕜 V U Y : Type} [RCLike 𝕜] [NormedAddCommGroup V] [InnerProductSpace 𝕜 V] [AddCommGroup U] [Module 𝕜 U]
+  [AddCommGroup Y] [Module 𝕜 Y]
+
+/-- a splitting term whose operator and adjoint are linear maps -/
+structure LTerm (𝕜 V U : Type) [RCLike 𝕜] [NormedAddCommGroup V] [InnerProductSpace 𝕜 V] [AddCommGroup U] [Module 𝕜 U] where
+  rho : 𝕜
+  C : V →ₗ[𝕜] U
+  CH : U →ₗ[𝕜] V
+  z : U
+  u : U
+
+def LTerm.toTerm (t : LTerm 𝕜 V U) : Term 𝕜 V U := ⟨t.rho, ⟨⇑t.C, ⇑t.CH⟩, t.z, t.u⟩
+
+/-- a weighted squared-l2 loss whose operator, adjoint and weighting are linear maps -/
+structure LSqL2 (𝕜 V Y : Type) [RCLike 𝕜] [NormedAddCommGroup V] [InnerProductSpace 𝕜 V] [AddCommGroup Y] [Module 𝕜 Y] where
+  scale : 𝕜
+  A : V →ₗ[𝕜] Y
+  AH : Y →ₗ[𝕜] V
+  W : Y →ₗ[𝕜] Y
+  y : Y
+
+def LSqL2.toSqL2 (f : LSqL2 𝕜 V Y) : SqL2 𝕜 V Y := ⟨f.scale, ⟨⇑f.A, ⇑f.AH⟩, ⇑f.W, f.y⟩
+
+/-- the documented left-hand operator as a linear map -/
+noncomputable def lhsLin (f : Option (LSqL2 𝕜 V Y)) (terms : List (LTerm 𝕜 V U)) : V →ₗ[𝕜] V :=
+  (terms.map fun t => t.rho • (t.CH.comp t.C)).sum +
+    (match f with | none => 0 | some f => (2 * f.scale) • (f.AH.comp (f.W.comp f.A)))
+
+theorem list_sum_apply (l : List (V →ₗ[𝕜] V)) (x : V) : (l.sum) x = (l.map fun g => g x).sum := by
+  induction l with
+  | nil => simp
+  | cons g gs ih => simp [ih]
+
+theorem lhsLin_apply (f : Option (LSqL2 𝕜 V Y)) (terms : List (LTerm 𝕜 V U)) (x : V) :
+    lhsLin f terms x = lhsSpec (f.map LSqL2.toSqL2) (terms.map LTerm.toTerm) x := by
+  unfold lhsLin lhsSpec
+  rw [LinearMap.add_apply, list_sum_apply]
+  congr 1
+  · simp [List.map_map, Function.comp_def, LTerm.toTerm]
+  · cases f with
+    | none => rfl
+    | some f => simp [LSqL2.toSqL2]
+
+/-- **`LinearSubproblemSolver.solve` with `scico.solver.cg`, no preconditioner**: the `x` it returns satisfies, for the
+    *documented* operator and right-hand side, `‖rhs − lhs x‖ ≤ max(tol ‖rhs‖, atol)` unless `maxiter` bodies were used —
+    and `info["rel_res"]·‖rhs‖` is that residual norm. -/
+theorem linearSolver_spec (f : Option (LSqL2 𝕜 V Y)) (terms : List (LTerm 𝕜 V U)) (hne : terms ≠ []) (x0 : V) (tol atol : ℝ)
+    (maxiter : Nat) :
+    ∃ lhs, linearLhs (f.map LSqL2.toSqL2) (terms.map LTerm.toTerm) = some lhs ∧
+      let rhs := linearRhs 0 (f.map LSqL2.toSqL2) (terms.map LTerm.toTerm)
+      let out := cg (rcOps 𝕜 V) lhs (fun v => v) rhs x0 tol atol maxiter
+      let res := rhsSpec (f.map LSqL2.toSqL2) (terms.map LTerm.toTerm) - lhsSpec (f.map LSqL2.toSqL2) (terms.map LTerm.toTerm) out.1
+      (0 ≤ max (tol * ‖rhs‖) atol → out.2.relRes = ‖res‖ / ‖rhs‖ ∧ (out.2.numIter = maxiter ∨ ‖res‖ ≤ max (tol * ‖rhs‖) atol)) := by
+  have hne' : terms.map LTerm.toTerm ≠ [] := by simpa using hne
+  obtain ⟨lhs, h1, h2⟩ := linearLhs_spec (f.map LSqL2.toSqL2) (terms.map LTerm.toTerm) hne'
+  refine ⟨lhs, h1, ?_⟩
+  intro rhs out res htol
+  have hlin : lhs = ⇑(lhsLin f terms) := by
+    funext x; rw [h2, lhsLin_apply]
+  have hrhs : rhs = rhsSpec (f.map LSqL2.toSqL2) (terms.map LTerm.toTerm) := linearRhs_spec _ _
+  have := cg_spec_noprecond (𝕜 := 𝕜) (lhsLin f terms) rhs x0 tol atol maxiter htol
+  simp only at this
+  have hout : out = cg (rcOps 𝕜 V) (⇑(lhsLin f terms)) (fun v => v) rhs x0 tol atol maxiter := by
+    show cg (rcOps 𝕜 V) lhs (fun v => v) rhs x0 tol atol maxiter = _
+    rw [hlin]
+  have hres : res = rhs - (lhsLin f terms) out.1 := by
+    show rhsSpec _ _ - lhsSpec _ _ out.1 = _
+    rw [← hrhs, lhsLin_apply]
+  rw [hres, hout]
+  exact this
+
+end LinearE2E
+
+end Scico.LinSolve
